@@ -850,6 +850,7 @@ int main(int argc, char** argv)
          if (r.died) std::printf("DETAIL the run ended the process: %s\n", r.sig.c_str());
          std::printf("RESULT sig=%s hash=%016" PRIx64 " events=%" PRIu64 "\nDONE\n", r.sig.c_str(), r.hash, st.c["events"]);
       } else if (t[0] == "QUIT") break;
+      else std::printf("NOTE unknown command: %s\nDONE\n", t[0].c_str());
    }
    if (ihf) std::fclose(ihf);
    std::remove(planfile.c_str());
